@@ -118,6 +118,13 @@ class G:
             kind = r.choice(['int', 'str', 'list']); vs = self.vars_of(kind)
             if not vs: return ['print(1)']
             return ['%s %s= %s' % (r.choice(vs), '+' if kind != 'int' else r.choice(['+', '-', '*']), self.expr(kind, 2))]
+        if k == 'destruct' and r.random() < 0.35:
+            iv = self.vars_of('int'); lv = self.vars_of('list')
+            if len(iv) >= 2:
+                x, y = r.sample(iv, 2)
+                return [r.choice(['[%s, %s] = [%s, %s]' % (x, y, y, x), '[%s, %s] = [%s, %s + %s]' % (x, y, y, x, y), '[%s, %s] = [%s + 1, %s]' % (x, y, x, x)]), 'print(%s)' % x, 'print(%s)' % y]
+            if lv:
+                l = r.choice(lv); return ['%s += [5, 6]' % l, '[%s[0], %s[1]] = [%s[1], %s[0]]' % (l, l, l, l), 'print(%s)' % l]
         if k == 'destruct':
             c = r.random(); a, b = self.fresh('v'), self.fresh('v')
             if c < 0.4:
@@ -134,6 +141,10 @@ class G:
             kind = r.choice(['list', 'obj']); vs = self.vars_of(kind)
             if len(vs) < 1: return ['print(5)']
             a, b = r.choice(vs), r.choice(vs)
+            if kind == 'list' and r.random() < 0.5:
+                return ['print([%s, %s] == [%s, %s])' % (a, a, self.atom('list', 2), self.atom('list', 2)), 'print([%s + [], %s + [1]] == [%s, %s])' % (a, a, b, b)]
+            if kind == 'obj' and r.random() < 0.5:
+                return ['print({"p": %s, "q": %s} == {"p": %s, "q": %s})' % (a, a, self.atom('obj', 2), self.atom('obj', 2))]
             return ['print(%s == %s)' % (a, b), 'print(%s === %s)' % (a, b), 'print(%s != %s)' % (a, self.atom(kind, 2))]
         if k == 'opelem':
             lv, ov = self.vars_of('list'), self.vars_of('obj')
@@ -191,7 +202,7 @@ class G:
             if r.random() < 0.6: out += ['} else {'] + self.block(r.randint(1, 2), d + 1)
             return out + ['}']
         if k == 'while':
-            i = self.fresh('i'); self.declare(i, 'int'); self.in_loop += 1
+            i = self.fresh('i'); self.declare(i, 'ctr'); self.in_loop += 1          # loop counters are never assignment targets: every generated loop terminates
             body = self.block(r.randint(1, 3), d + 1); self.in_loop -= 1
             return ['%s := 0' % i, 'while %s < %d {' % (i, r.randint(1, 3)), '    %s += 1' % i] + body + ['}']
         if k in ('forlist', 'forobj', 'forstr'):
